@@ -1,6 +1,9 @@
 #[cfg(test)]
 pub mod simulate;
 
+#[cfg(lexgen_verif)]
+pub mod verif;
+
 use crate::ast::{Regex, Var};
 use crate::collections::{Map, Set};
 use crate::display::HashSetDisplay;
